@@ -192,8 +192,82 @@ def run(ctx):
         if proof_err is None:
             ctx.broken('corr/c03 model evaluation', e.log)
             return
+    # hints that print alike but are different hints (factory-made validators and classes, new types of one name): every entry
+    # point must be about the hint it was given, whatever look-alike was asked about before
+    probe = same_repr_probe()
+    ctx.extra['same_repr_probe'] = probe if 'probe_failed' in probe else {k: 'agree' if len(set(v.values())) == 1 else v for k, v in probe.items()}
+    ctx.evaluations += len(probe)
+    if 'probe_failed' in probe:
+        failures += 1
+        ctx.report({'clause': 'same_repr_probe_failed'}, {'observed': probe}, 'the probe of look-alike hints crashed')
+    else:
+        for name, verdicts in probe.items():
+            want = verdicts.pop('expected')
+            if any(v != want for v in verdicts.values()):
+                failures += 1
+                ctx.report({'clause': 'entrypoints', 'stream': 'same_repr'}, {'case': name, 'expected': want, 'verdicts': verdicts},
+                           'entry points disagree on a hint that prints like an earlier, different hint')
+                break
     if proof_err is not None and not failures:
         ctx.broken(f'{PROP} ({proof_err.what})', proof_err.log)
+
+
+def same_repr_probe():
+    import subprocess
+    from harness.common import PY, impl_env
+    code = r'''
+import json, warnings
+warnings.simplefilter('ignore')
+from typing import Annotated, NewType, Optional
+from beartype import beartype
+from beartype.door import TypeHint, die_if_unbearable, is_bearable
+from beartype.roar import BeartypeException
+from beartype.vale import Is
+def at_least(n):
+    return Annotated[int, Is[lambda x: x >= n]]
+def make_class():
+    class Record: pass
+    return Record
+def verdicts(hint, obj):
+    def v(fn):
+        try:
+            r = fn()
+            return 'accept' if r is not False else 'reject'
+        except BeartypeException as e:
+            return 'reject'
+        except Exception as e:
+            return 'exc:' + type(e).__name__
+    def f(x): return x
+    f.__annotations__ = {'x': hint}
+    g = beartype(f)
+    def h(x): return x
+    h.__annotations__ = {'return': hint}
+    k = beartype(h)
+    return {'is_bearable': v(lambda: is_bearable(obj, hint)), 'die_if_unbearable': v(lambda: die_if_unbearable(obj, hint)),
+            'TypeHint.is_bearable': v(lambda: TypeHint(hint).is_bearable(obj)), 'TypeHint.die_if_unbearable': v(lambda: TypeHint(hint).die_if_unbearable(obj)),
+            'param': v(lambda: g(obj)), 'return': v(lambda: k(obj))}
+out = {}
+lo, hi = at_least(3), at_least(10)
+verdicts(lo, 5)
+out['validator'] = dict(verdicts(hi, 5), expected='reject')
+out['validator_in_list'] = dict(verdicts(list[hi], [5]), expected='reject')
+R1, R2 = make_class(), make_class()
+verdicts(R1, R1()); verdicts(list[R1], [R1()]); verdicts(Optional[R1], R1())
+out['class'] = dict(verdicts(R2, R2()), expected='accept')
+out['class_wrong'] = dict(verdicts(R2, R1()), expected='reject')
+out['class_in_list'] = dict(verdicts(list[R2], [R2()]), expected='accept')
+out['class_optional'] = dict(verdicts(Optional[R2], R2()), expected='accept')
+N1, N2 = NewType('UserId', int), NewType('UserId', str)
+verdicts(N1, 1)
+out['newtype'] = dict(verdicts(N2, 'u'), expected='accept')
+out['newtype_wrong'] = dict(verdicts(N2, 1), expected='reject')
+print(json.dumps(out))
+'''
+    p = subprocess.run([PY, '-c', code], capture_output=True, text=True, env=impl_env(), timeout=300)
+    try:
+        return json.loads(p.stdout.strip().splitlines()[-1])
+    except Exception:  # noqa
+        return {'probe_failed': p.stderr[-600:] or 'no output'}
 
 
 def replay(ctx, path):
